@@ -35,10 +35,12 @@ EXEMPT = ('accessor', 'no_operand')
 
 
 class Entry:
-    def __init__(self, name, kind, shape=None, call=None, variants=1, pardims=(1, 2, 3), note=''):
+    def __init__(self, name, kind, shape=None, call=None, variants=1, pardims=(1, 2, 3), note='', allow_view_return=False):
         assert kind in CONTRACTS + EXEMPT, kind
         self.name, self.kind, self.shape, self.call = name, kind, shape, call
         self.variants, self.pardims, self.note = variants, tuple(pardims), note
+        # a documented variant of the operation is an accessor handing out live internals by design
+        self.allow_view_return = allow_view_return
 
     @property
     def contracted(self):
@@ -49,8 +51,8 @@ TABLE = []
 BY_NAME = {}
 
 
-def op(name, kind, shape=None, call=None, variants=1, pardims=(1, 2, 3), note=''):
-    e = Entry(name, kind, shape, call, variants, pardims, note)
+def op(name, kind, shape=None, call=None, variants=1, pardims=(1, 2, 3), note='', allow_view_return=False):
+    e = Entry(name, kind, shape, call, variants, pardims, note, allow_view_return)
     assert name not in BY_NAME, name
     TABLE.append(e)
     BY_NAME[name] = e
@@ -532,7 +534,8 @@ op(SO + 'start', 'query', 'O', lambda sp, a, v: a[0].start() if v == 0 else a[0]
 op(SO + 'end', 'query', 'O', lambda sp, a, v: a[0].end() if v == 0 else a[0].end(0), variants=2)
 op(SO + 'order', 'query', 'O', lambda sp, a, v: a[0].order() if v == 0 else a[0].order(0), variants=2)
 op(SO + 'knots', 'query', 'O', lambda sp, a, v: a[0].knots() if v == 0 else a[0].knots(0), variants=2,
-   note='only with_multiplicities=False is in the list; with_multiplicities=True hands out the live knot array by design (accessor)')
+   note='only with_multiplicities=False is in the list; with_multiplicities=True hands out the live knot array by design (accessor)',
+   allow_view_return=True)
 op(SO + 'bounding_box', 'query', 'O', lambda sp, a, v: a[0].bounding_box())
 op(SO + 'center', 'query', 'O', lambda sp, a, v: a[0].center())
 op(SO + 'corners', 'query', 'O', lambda sp, a, v: a[0].corners('C' if v == 0 else 'F'), variants=2)
@@ -769,7 +772,7 @@ _LEAN_CONTRACT = {'query': 'query', 'fresh': 'fresh', 'inplace': 'inPlace', 'pro
                   'procedure_all': 'procedureAll'}
 
 
-def lean_table_source(public):
+def lean_table_source(public, effects=None, inconsistent=()):
     """Generated/C11.lean: the public API (from introspection) as an inductive type, the table
     (from this file) as a function `entry : OpId -> Option Entry`."""
     # every op the driver may be asked about: the public names plus call-form aliases of the table
@@ -821,12 +824,43 @@ def lean_table_source(public):
     L.append('')
     L.append('def lookup (s : String) : Option OpId := OpId.all.find? (fun o => o.name == s)')
     L.append('')
+    L.append('/-- Effect summaries inferred from the CURRENT library sources by the AST effect inference')
+    L.append('    (harness/props/_c11_effects.py); `Effect.notAnalysed` where no source function is analysed. -/')
+    L.append('def effect : OpId → Effect')
+    effects = effects or {}
+    some = False
+    for n in names:
+        ef = effects.get(n)
+        if ef is None or not ef.analysed:
+            continue
+        some = True
+        rets = ', '.join({'param': '.param %d' % i, 'view': '.view %d' % i, 'fresh': '.fresh', 'none': '.none_',
+                          'unknown': '.unknown'}[k] for k, i in ef.returns)
+        caps = ', '.join('(%d, %d)' % c for c in ef.captures)
+        allow = 'true' if (BY_NAME.get(n) and BY_NAME[n].allow_view_return) else 'false'
+        L.append('  | .%s => { analysed := true, operands := %s, stores := %s, storesUnknown := %s, returns := [%s], captures := [%s], allowViewReturn := %s }'
+                 % (lean_ident(n), list(ef.operands), list(ef.stores), 'true' if ef.stores_unknown else 'false', rets, caps, allow))
+    if not some or any((effects.get(n) is None or not effects[n].analysed) for n in names):
+        L.append('  | _ => Effect.notAnalysed')
+    L.append('')
+    L.append('/-- Operations whose source the inference finds INCONSISTENT with their contract (regenerated;')
+    L.append('    each one is reported as a failing obligation of the run, with its finding class if it has one). -/')
+    L.append('def inconsistentOps : List OpId := [%s]' % ', '.join('.' + lean_ident(n) for n in inconsistent))
+    L.append('')
+    L.append('/-- Is the contract of `o` consistent with the effect read off its source?  (`true` for exempt entries.) -/')
+    L.append('def consistentAt (o : OpId) : Bool :=')
+    L.append('  match entry o with')
+    L.append('  | some (.contract c) => Consistent c (effect o)')
+    L.append('  | _ => true')
+    L.append('')
+    L.append('def contracted (o : OpId) : Bool := match entry o with | some (.contract _) => true | _ => false')
+    L.append('')
     L.append('end Splipy.Generated.C11')
     L.append('')
     return '\n'.join(L)
 
 
-def lean_obligations_source():
+def lean_obligations_source(counts=None):
     return '''import Splipy.Generated.C11
 
 /-! GENERATED by harness/props/_c11_ops.py (`regenerate`).  Source-derived obligation of C11:
@@ -849,4 +883,26 @@ theorem C11_contract_table_contracts_modelled :
     ∀ o : OpId, ∀ c, entry o = some (.contract c) →
       c = .query ∨ c = .fresh ∨ c = .inPlace ∨ c = .procedure ∨ c = .procedureAll := by
   intro o c _; cases c <;> simp
-'''
+''' + ('' if counts is None else '''
+/-- **Contracts against the source.**  For every operation whose body the effect inference analysed
+    (methods of SplineObject/Curve/Surface/Volume, functions of the three factory modules), the
+    contract of the table is consistent with the effect summary read off the CURRENT source
+    (`Splipy.Heap.Consistent`), except for the operations listed in `inconsistentOps`, which are
+    reported as failing obligations of the run. -/
+theorem C11_contracts_consistent_with_source :
+    ∀ o : OpId, inconsistentOps.contains o = false → consistentAt o = true := by
+  intro o; cases o <;> decide
+
+/-- The exception list is exact: every operation in it IS inconsistent with its contract. -/
+theorem C11_source_inconsistencies_confirmed : ∀ o ∈ inconsistentOps, consistentAt o = false := by
+  decide
+
+/-- **Coverage of the source check** (numbers regenerated, re-checked here): of the contracted
+    operations, how many are checked against the source completely / with some aspect unknown /
+    not at all (dynamic experiment only). -/
+theorem C11_source_check_coverage :
+    (OpId.all.filter (fun o => contracted o && (effect o).fullyChecked)).length = %(full)d ∧
+    (OpId.all.filter (fun o => contracted o && (effect o).partlyChecked)).length = %(partial)d ∧
+    (OpId.all.filter (fun o => contracted o && !(effect o).analysed)).length = %(none)d :=
+  ⟨by rfl, by rfl, by rfl⟩
+''' % counts)
